@@ -51,6 +51,11 @@ for _t, _e in [('Box<str>', 'Box::<str>::from("hi")'), ("std::borrow::Cow<'stati
                ('std::rc::Rc<str>', 'std::rc::Rc::<str>::from("hi")'), ('Vec<u8>', 'vec![104u8, 105u8]'), ('std::ffi::OsString', 'std::ffi::OsString::from("hi")')]:
     _add('str/' + _t, '"hi"', _t, _e)                                        # From<&str>
 _add('flts/f32x', '2.5f32', 'f32', '2.5f32')
+_add('flts/f64-inexact', '0.1f32', 'f64', 'f64::from(0.1f32)')
+_add('negf/f64-inexact', '-2.7f32', 'f64', 'f64::from(-2.7f32)')
+_add('flts/f64-big', '16777217.0f32', 'f64', 'f64::from(16777217.0f32)')
+_add('flt/f32-inexact', '0.1', 'f32', '0.1f32')
+_add('flt/f64-inexact', '0.1', 'f64', '0.1f64')
 _add('flt/f64n', '-1.5', 'f64', '-1.5f64')
 _add('bstr/Cow', 'b"hi"', "std::borrow::Cow<'static, [u8]>", 'std::borrow::Cow::Borrowed(&b"hi"[..])')
 CH = {c[0]: c for c in CHOICES}
